@@ -334,6 +334,17 @@ type Site struct {
 
 // Sites returns every instruction of fn (not its closures) matched by m, in block order.
 func (p *Prog) Sites(fn *ssa.Function, m Matcher) []Site {
+	if TransparentSites {
+		return p.SitesT(fn, m)
+	}
+	return p.SitesDirect(fn, m)
+}
+
+// TransparentSites: Sites looks through transparent helpers (see transparent.go).
+var TransparentSites = true
+
+// SitesDirect returns the instructions of fn itself matched by m, in block order.
+func (p *Prog) SitesDirect(fn *ssa.Function, m Matcher) []Site {
 	var out []Site
 	if fn == nil {
 		return nil
@@ -361,7 +372,7 @@ func (p *Prog) SitesDeep(fn *ssa.Function, m Matcher) []Site {
 func (p *Prog) SitesInProgram(m Matcher) []Site {
 	var out []Site
 	for _, f := range p.AllFuncs {
-		out = append(out, p.Sites(f, m)...)
+		out = append(out, p.SitesDirect(f, m)...)
 	}
 	return out
 }
